@@ -47,6 +47,8 @@ pub struct Rg {
     timeout: Duration,
     /// close our end of stdout after reading this many bytes
     close_stdout_after: Option<usize>,
+    /// wait this long before the first read of stdout (a consumer that falls behind)
+    read_delay: Option<Duration>,
     program: String,
 }
 
@@ -60,6 +62,7 @@ impl Rg {
             drop_uid: false,
             timeout: Duration::from_secs(20),
             close_stdout_after: None,
+            read_delay: None,
             program: rg_path(),
         }
     }
@@ -99,6 +102,10 @@ impl Rg {
     }
     pub fn close_stdout_after(mut self, n: usize) -> Rg {
         self.close_stdout_after = Some(n);
+        self
+    }
+    pub fn read_delay(mut self, d: Duration) -> Rg {
+        self.read_delay = Some(d);
         self
     }
     pub fn cmdline(&self) -> String {
@@ -159,8 +166,12 @@ impl Rg {
         let mut so = child.stdout.take().unwrap();
         let mut se = child.stderr.take().unwrap();
         let close_after = self.close_stdout_after;
+        let read_delay = self.read_delay;
         let out_thread = std::thread::spawn(move || {
             let mut buf = vec![];
+            if let Some(d) = read_delay {
+                std::thread::sleep(d);
+            }
             match close_after {
                 None => {
                     let _ = so.read_to_end(&mut buf);
